@@ -62,6 +62,11 @@ def params(rng):
 	ps = {}
 	for _ in range(rng.choice((0, 1, 1, 2, 3, 4))):
 		k = u''.join(rng.choice(u'abcdefxyz-_1') for _ in range(rng.randrange(1, 6)))
+		if rng.random() < 0.25:
+			# parameter names are case-insensitive tokens: any spelling, also the usual ones of cookie attributes
+			k = rng.choice([k.upper(), k.title(), k.swapcase(), u'SameSite', u'Priority', u'Partitioned', u'Max-Age', u'HttpOnly', u'Path', u'FileName', u'Charset', u'Q'])
+		if k.lower() in {x.lower() for x in ps}:
+			continue
 		ps[k] = value_text(rng)
 	return ps
 
@@ -254,8 +259,16 @@ def oracle(case):
 		return (o.value, sorted((k if isinstance(k, bytes) else k.encode(), v if not isinstance(v, bytes) else v.decode('utf-8', 'replace')) for k, v in o.params.items()))
 	exp = [(o.value, sorted((k if isinstance(k, bytes) else k.encode(), v) for k, v in o.params.items())) for o in objs]
 	got = [canon(o) for o in back]
-	if got != exp:
+	# names are compared as the case-insensitive tokens they are (the parser lower-cases them, except the free attributes of cookies)
+	fold = lambda l: [(v, sorted((k.lower(), x) for k, x in ps)) for v, ps in l]
+	if fold(got) != fold(exp):
 		return {'what': 'parse(compose(elements)) differs', 'wire': wire.decode('latin-1'), 'got': repr(got)[:300], 'expected': repr(exp)[:300], 'finding': fid}
+	# ... and against what the caller handed in, not only against what the constructor kept
+	for (kind_, v_, ps_), o in zip(els, back):
+		want = sorted(k.lower().encode() for k, _v in ps_)
+		have = sorted((k if isinstance(k, bytes) else k.encode()).lower() for k in o.params.keys())
+		if want != have and not fid:
+			return {'what': 'parameter names %r came back as %r' % (want, have), 'wire': wire.decode('latin-1'), 'finding': fid}
 	return None
 
 
